@@ -1,7 +1,10 @@
 // extract-sync prints, for each requested function or method, the source-order skeleton of its
 // synchronisation-relevant operations as a Lean module: one `def skel_<Name> : List String`.
 //
-//	extract-sync <out.lean> <LeanNamespace> [+ExtraMethodName ...] <file.go>:<Func|Recv.Method> ...
+//	extract-sync <out.lean> <LeanNamespace> [+ExtraMethodName ...] <file.go>:<Func|Recv.Method|type=Name> ...
+//
+// A request `file.go:type=Name` emits `def skel_type_Name`: the declared type of a named type as source text
+// (for a struct: "struct" followed by one token per field, "name type" or "embedded type").
 //
 // Tokens: "lock X" "unlock X" "rlock X" "runlock X" (X = receiver expression as written),
 // "defer <token>", "call X.M" for the configured method names (Wait Signal Broadcast Add Done Store
@@ -297,6 +300,56 @@ func main() {
 				os.Exit(1)
 			}
 			files[r.file] = f
+		}
+		if strings.HasPrefix(r.name, "type=") {
+			// type=Name: the declared (underlying or struct) type of a named type, as source text; for a struct one
+			// token per field "name type" in source order (embedded fields: "embedded type")
+			tn := strings.TrimPrefix(r.name, "type=")
+			var toks []string
+			ok := false
+			for _, d := range f.Decls {
+				gd, isGen := d.(*ast.GenDecl)
+				if !isGen || gd.Tok != token.TYPE {
+					continue
+				}
+				for _, sp := range gd.Specs {
+					ts := sp.(*ast.TypeSpec)
+					if ts.Name.Name != tn {
+						continue
+					}
+					ok = true
+					e := &ex{fset: fset}
+					if st, isStruct := ts.Type.(*ast.StructType); isStruct {
+						toks = append(toks, "struct")
+						for _, fld := range st.Fields.List {
+							if len(fld.Names) == 0 {
+								toks = append(toks, "embedded "+e.src(fld.Type))
+							}
+							for _, n := range fld.Names {
+								toks = append(toks, n.Name+" "+e.src(fld.Type))
+							}
+						}
+					} else {
+						toks = append(toks, e.src(ts.Type))
+					}
+				}
+			}
+			if !ok {
+				fmt.Fprintf(os.Stderr, "extract-sync: type %s not found in %s\n", tn, r.file)
+				failed = true
+
+				continue
+			}
+			fmt.Fprintf(&b, "/-- type %s (%s) -/\ndef skel_type_%s : List String := [", tn, r.file[strings.LastIndex(r.file, "/")+1:], leanIdent(tn))
+			for i, t := range toks {
+				if i > 0 {
+					b.WriteString(", ")
+				}
+				fmt.Fprintf(&b, "%q", t)
+			}
+			b.WriteString("]\n\n")
+
+			continue
 		}
 		var found *ast.FuncDecl
 		for _, d := range f.Decls {
